@@ -326,8 +326,12 @@ def builtinSig (name : String) : Option Sig :=
     | "__if" => some (anyN 3)
     | "__tryindex" => some (anyN 2)
     | "__str" | "__op__array" | "__op__map" | "__op__map_params" => some { fixed := [], variadic := some .any }
+    | "__attr" => some { fixed := [.gostr, .any, .any] }
+    | "__attrs" => some { fixed := [], variadic := some .any }
+    | "__and_attrs" => some { fixed := [.any] }
     | "__freeze" => some { fixed := [.gostr] }
     | "Math" | "JSON" | "Object" => some { fixed := [] }
+    | "vpIdent" => some (anyN 1)      -- harness-supplied template function: returns its argument
     | _ => none
 
 def boolOf (o : Option Bool) : M Bool := ofOpt o "comparison outside domain"
@@ -371,6 +375,54 @@ def indexFn (item : Val) (idxs : List Val) : M Val := do
     | _ => domainErr "multi-index"
   | .S _ | .str _ => domainErr "indexing a string yields a byte"
   | _ => execErr "error calling __pug__index: can't index item"
+
+/-- does `__attrs` trim every attribute value (true) or only the merged class value (false)? — follows runtime.go -/
+def attrsTrimAll : Bool := false
+
+/-- one collected attribute value inside __attrs: (mustEscape, val, bool) -/
+abbrev TmpAttr := Bool × String × Option Bool
+
+/-- Go `unicode.IsSpace` on the code points the model meets -/
+def goIsSpace (c : Char) : Bool :=
+  c == ' ' || c == '\t' || c == '\n' || c == '\r' || c.toNat == 0x0b || c.toNat == 0x0c || c.toNat == 0x85 || c.toNat == 0xa0 ||
+  c.toNat == 0x2028 || c.toNat == 0x2029 || c.toNat == 0x3000 || (c.toNat ≥ 0x2000 && c.toNat ≤ 0x200a) || c.toNat == 0x1680 ||
+  c.toNat == 0x202f || c.toNat == 0x205f
+
+def trimSpaceStr (s : String) : String :=
+  String.ofList ((s.toList.dropWhile goIsSpace).reverse.dropWhile goIsSpace).reverse
+
+/-- `__attrs` (runtime.go): first-occurrence order of names; the last value wins except for `class`, whose values accumulate
+    (identical records are skipped); false/nil omit the attribute (for class: that entry); values are escaped -/
+def renderAttrs (recs : List (String × Option Bool × String × Bool)) : String :=
+  -- collect
+  let step (acc : List (String × List TmpAttr)) (r : String × Option Bool × String × Bool) : List (String × List TmpAttr) :=
+    let (name, b, v, esc) := r
+    let val := match b with
+      | some _ => if esc then name else "\"" ++ name ++ "\""
+      | none => v
+    let att : TmpAttr := (esc, val, b)
+    match acc.find? (·.1 == name) with
+    | some (_, olds) =>
+      if name == "class" then
+        -- `s == att` compares the *bool pointers*: two records with a BoolVal are never identical
+        if olds.any (fun o => o == att && att.2.2.isNone) then acc
+        else acc.map fun e => if e.1 == name then (name, olds ++ [att]) else e
+      else acc.map fun e => if e.1 == name then (name, [att]) else e
+    | none => acc ++ [(name, [att])]
+  let coll := recs.foldl step []
+  let renderOne (name : String) (vals : List TmpAttr) : String :=
+    let isClass := name == "class"
+    -- a false boolean omits the whole attribute, unless it is a class entry (then only that entry)
+    if !isClass && vals.any (fun v => v.2.2 == some false) then "" else
+    let vals := if isClass then vals.filter (fun v => v.2.2 != some false) else vals
+    let parts := vals.map fun (esc, val, _) =>
+      if esc then stdHtmlEscape val
+      else if val.toList.head? == some '"' then String.ofList ((val.toList.drop 1).dropLast) else ""
+    -- `if len(tmp) > 0 { tmp += " " }` before each value
+    let tmp := parts.foldl (fun acc p => (if acc.length > 0 then acc ++ " " else acc) ++ p) ""
+    let tmp := if attrsTrimAll || isClass then trimSpaceStr tmp else tmp
+    if tmp == "" && isClass then "" else " " ++ name ++ "=\"" ++ tmp ++ "\""
+  String.join (coll.map fun (n, vs) => renderOne n vs)
 
 /-- apply a function-map entry to evaluated arguments; results already passed through `convert` -/
 def callBuiltin (name : String) (args : List Val) : M Val := do
@@ -429,8 +481,7 @@ def callBuiltin (name : String) (args : List Val) : M Val := do
         allocMap { items := items, order := ps.map (·.1) }
       | "__str", parts => do
         let ss ← parts.mapM fun v => ofOpt (objStr h (strFuel h) v) "String() outside domain"
-        let res := String.join ss
-        if res.length > 1 then pure (.S (" " ++ (res.trimAscii).toString)) else pure (.S "")
+        pure (.S (String.join ss))
       | "__tryindex", [obj, key] =>
         match obj, key with
         | .arr a, .int i =>
@@ -439,6 +490,67 @@ def callBuiltin (name : String) (args : List Val) : M Val := do
           pure (items.getD i.toNat .nil)
         | .nil, _ => pure .nil
         | _, _ => domainErr "__tryindex on a non-array"
+      | "__attr", [.str k, v, .bool e] =>
+        -- runtime.go __attr: bool / nil → BoolVal only; object or string → Val; anything else → fmt.Sprintf
+        match v with
+        | .B b | .bool b => pure (.attrs [(k, some b, "", false)])
+        | .nil => pure (.attrs [(k, some false, "", false)])
+        | .str s => pure (.attrs [(k, none, s, e)])
+        | .invalid => pure (.attrs [(k, some false, "", false)])    -- undefined variable: nil interface, omitted like null
+        | .int i => pure (.attrs [(k, none, toString i, e)])
+        | .flt q => do
+          let s ← ofOpt (fmtFloatV q) "float formatting"
+          pure (.attrs [(k, none, s, e)])
+        | .arr a =>
+          if k == "class" then do
+            -- entries that are false or null are dropped; the rest joined by one blank
+            let items := (h.getArr a).filter fun it => match it with
+              | .B false | .nil | .invalid => false
+              | _ => true
+            let ss ← items.mapM fun it => ofOpt (objStr h (strFuel h) it) "String() outside domain"
+            pure (.attrs [(k, none, " ".intercalate ss, e)])
+          else do
+            let s ← ofOpt (objStr h (strFuel h) v) "String() outside domain"
+            pure (.attrs [(k, none, s, e)])
+        | v => do
+          let s ← ofOpt (objStr h (strFuel h) v) "String() outside domain"
+          pure (.attrs [(k, none, s, e)])
+      | "__and_attrs", [x] =>
+        match x with
+        | .map a => do
+          let m := h.getMap a
+          let (keys, m') := mapKeys m
+          setHeap (h.setMap a m')
+          let recs ← keys.mapM fun k => do
+            let v := mapMember m k
+            let s ← ofOpt (objStr h (strFuel h) v) "String() outside domain"
+            match v with
+            | .B b => pure (k, some b, s, true)
+            | _ => pure (k, (none : Option Bool), s, true)
+          pure (.attrs recs)
+        | _ => domainErr "&attributes of a non-map"
+      | "__attrs", lists => do
+        let recs ← lists.mapM fun l => match l with
+          | .attrs rs => pure rs
+          | _ => domainErr "__attrs argument"
+        pure (.S (renderAttrs recs.flatten))
+      | "__op__map_params", kvs => do
+        -- map[interface{}]interface{} keyed by the raw name; a repeated name collects its values in a slice
+        let rec mpairs : List Val → M (List (String × Val))
+          | .str k :: v :: rest => do pure ((k, v) :: (← mpairs rest))
+          | [] => pure []
+          | _ => domainErr "__op__map_params key"
+        let ps ← mpairs kvs
+        let names := ps.foldl (fun acc kv => if acc.contains kv.1 then acc else acc ++ [kv.1]) ([] : List String)
+        let items ← names.mapM fun k => do
+          let vs := (ps.filter (·.1 == k)).map (·.2)
+          match vs with
+          | [v] => pure (k, convertRaw v)
+          | vs => do
+            let arr ← allocArr (vs.map convertRaw)
+            pure (k, arr)
+        allocMap { items := items, order := [] }
+      | "vpIdent", [x] => pure (convertRaw x)
       | "Math", [] => pure (.host "Math")
       | "JSON", [] => pure (.host "JSON")
       | _, _ => domainErr s!"function {name}"
